@@ -4,22 +4,12 @@ import json, os
 VERIF = os.path.dirname(os.path.dirname(os.path.abspath(__file__)))
 ALL = ['C%02d' % i for i in range(1, 21)]
 
-# pid -> (technique, level text, level note, design ref)
-CLAIMED = {}
+from .claims import CLAIMED  # pid -> (technique, level text, level note, design ref)
 
 PENDING_REASON = 'rule set not implemented yet (construction in progress, see DESIGN.md §7c)'
 
 
-def claim(pid, technique, text, note, ref):
-    CLAIMED[pid] = (technique, text, note, ref)
-
-
-def _load_claims():
-    from . import claims  # noqa: F401  (fills CLAIMED)
-
-
 def build():
-    _load_claims()
     checks = []
     for pid in ALL:
         if pid not in CLAIMED:
